@@ -8,9 +8,10 @@ import OfxModel.Drv.Getattr
 import OfxModel.Drv.Header
 import OfxModel.Drv.Ofxget
 import OfxModel.Drv.Parser
+import OfxModel.Drv.Purity
 import OfxModel.Drv.Serialize
 import OfxModel.Drv.Types
 
 namespace Ofx.Drv
-def handlers : List Handler := [SecId.handle, Ofx.Drv.Agg.handle, Ofx.Drv.Pipeline.handle, Ofx.Drv.Client.handle, Ofx.Drv.Compose.handle, Ofx.Drv.DateTime.handle, Ofx.Drv.Getattr.handle, Ofx.Drv.Header.handle, Ofx.Drv.Ofxget.handle, Ofx.Drv.Parser.handle, Ofx.Drv.Serialize.handle, Ofx.Drv.Types.handle]
+def handlers : List Handler := [SecId.handle, Ofx.Drv.Agg.handle, Ofx.Drv.Pipeline.handle, Ofx.Drv.Client.handle, Ofx.Drv.Compose.handle, Ofx.Drv.DateTime.handle, Ofx.Drv.Getattr.handle, Ofx.Drv.Header.handle, Ofx.Drv.Ofxget.handle, Ofx.Drv.Parser.handle, Ofx.Drv.Purity.handle, Ofx.Drv.Serialize.handle, Ofx.Drv.Types.handle]
 end Ofx.Drv
